@@ -54,6 +54,15 @@ def replay(pid, cx):
         print('replay of real-driver schedule %s: the real RealDriver / DevInputReader / DevInputWriter / per-device loop on OS pipes' % n)
         print(p.stdout.decode())
         return 1 if p.returncode == 1 else 0
+    if (cx.get('input') or '').startswith('program '):
+        import witness, tempfile
+        exe = witness.build()
+        with tempfile.NamedTemporaryFile('w', suffix='.json', delete=False) as f:
+            json.dump(dict(counterexample=dict(program=cx['input'][len('program '):])), f)
+        p = subprocess.run([exe, 'replay', 'C13', f.name], stdout=subprocess.PIPE, stderr=subprocess.STDOUT, timeout=120)
+        os.unlink(f.name)
+        print(p.stdout.decode())
+        return 1 if p.returncode == 1 else 0
     if pid == 'C18':
         import witness
         exe = witness.build()
@@ -157,6 +166,34 @@ def run_tables_enum(tier, seed):
     out.update(exhaustive=True, evaluations=d['cases'], distinct_nontrivial=d['table_entries'] + 5, sample="'A' -> (shift, A); row Q -> [Q, W, E, R, T, Y, U, I, O, P, LEFTBRACE, RIGHTBRACE]", wall_s=round(time.time() - t0, 2),
                explanation='CHAR_ACCESS_MAP.get(c) compared with an independently written US-QWERTY legend table for every Unicode scalar value (%d lookups; %d characters have an entry, space has none) and US_KEYBOARD_LAYOUT.get(row) for all five rows; complete over both domains. This backs the uninterpreted table functions cam_entry / ukl_row of the contracts (E5); it is enumerative, not counted as proof' % (d['cases'] - 5, d['table_entries']),
                bound='none: all 1,112,064 scalar values and all 5 rows')
+    out['violations'] = len(d['failures'])
+    out['violation_list'] = [dict(input=f['input'], what=f['what']) for f in d['failures'][:1]]
+    return out
+
+
+def run_programs_bounded(tier, seed):
+    """C13, bounded: generated layout programs through the real loader against the expansion written out by hand, acceptance included"""
+    import witness
+    out = dict(name='programs_bounded', kind='bounded', counts_as_proof=False)
+    try:
+        exe = witness.build()
+    except Exception as e:
+        out['undecided'] = 'harness build failed: %s' % str(e)[-300:]; return out
+    n = 150000 if tier == 'quick' else 4000000
+    t0 = time.time()
+    p = subprocess.run([exe, 'programs', str(n), '20260926'], stdout=subprocess.PIPE, stderr=subprocess.PIPE, timeout=3000)
+    try:
+        d = json.loads(p.stdout.decode().strip().split('\n')[-1])
+    except Exception as e:
+        out['undecided'] = 'probe output unreadable: %s %s' % (e, p.stderr.decode()[-300:]); return out
+    out.update(exhaustive=False, evaluations=d['programs'], distinct_nontrivial=d['accepted_and_equal'], wall_s=round(time.time() - t0, 2),
+               sample='{"from":["@p",{"row":"Q"}],"to":["@p",{"letters":"aB"}],"repeat":{"Special":{"keys":[{"letters":"x"}],...}},"absorbing":["@p"]} with two definitions of @p',
+               explanation=('%d generated layout programs (fixed seed: the same programs on every run; alias definitions with one or several keys and several definitions per alias, single / row / repeat-only '
+                            'mappings with up to three alias or plain modifiers, Special repeats, absorbing lists) written as JSON, loaded through the real parser + converter and compared with the expansion '
+                            'written out by hand in the harness: %d accepted and equal mapping by mapping (trigger, output, repeat, absorbing), %d rejected by both; a program with a usable hand-written '
+                            'expansion that the loader rejects, or on which it panics, counts as a failure. This is the only part of the C13 check that says anything about WHEN the converter accepts '
+                            '(the contracts are of the form "r is Ok ==> ..."); it is bounded and never counted as proof' % (d['programs'], d['accepted_and_equal'], d['rejected_by_both'])),
+               bound='%d programs of at most 4 mappings, 3 aliases, 3 definitions per alias, fixed seed 20260926' % d['programs'])
     out['violations'] = len(d['failures'])
     out['violation_list'] = [dict(input=f['input'], what=f['what']) for f in d['failures'][:1]]
     return out
